@@ -4,11 +4,13 @@ CONSTANTS
   Rs = {1, 2, 3}
   Xs = {0, 2}
   Ds = {2, 4}
+  Norms = {FALSE, TRUE}
   MethodsC <- AllMethods
   Mutant = "zipup-nocanon"
   Emit = FALSE
 INVARIANT BondCap
 INVARIANT CentreWherePromised
 INVARIANT ValueKept
+INVARIANT NormalizedAtCentre
 INVARIANT RejectOnlyDocumented
 CHECK_DEADLOCK FALSE
